@@ -9,9 +9,12 @@ replace github.com/spf13/afero => github.com/anz-bank/afero v1.2.4
 require (
 	github.com/arr-ai/arrai v0.0.0
 	github.com/arr-ai/frozen v1.11.0
+	github.com/arr-ai/proto v0.0.0-20180422074755-2ffbedebee50
 	github.com/arr-ai/wbnf v0.38.0
+	github.com/gorilla/websocket v1.5.3
 	github.com/sirupsen/logrus v1.9.4
 	github.com/spf13/afero v1.11.0
+	google.golang.org/grpc v1.59.0
 )
 
 require (
@@ -19,6 +22,7 @@ require (
 	github.com/cpuguy83/go-md2man/v2 v2.0.4 // indirect
 	github.com/davecgh/go-spew v1.1.1 // indirect
 	github.com/go-errors/errors v1.5.1 // indirect
+	github.com/golang/protobuf v1.5.4 // indirect
 	github.com/iancoleman/strcase v0.3.0 // indirect
 	github.com/mattn/go-isatty v0.0.20 // indirect
 	github.com/mohae/deepcopy v0.0.0-20170929034955-c48cc78d4826 // indirect
@@ -36,6 +40,7 @@ require (
 	golang.org/x/net v0.50.0 // indirect
 	golang.org/x/sys v0.41.0 // indirect
 	golang.org/x/text v0.34.0 // indirect
+	google.golang.org/genproto/googleapis/rpc v0.0.0-20230822172742-b8732ec3820d // indirect
 	google.golang.org/protobuf v1.34.2 // indirect
 	gopkg.in/yaml.v3 v3.0.1 // indirect
 )
